@@ -36,6 +36,7 @@ func main() {
 	arch := flag.String("goarch", "", "GOARCH for -all")
 	tags := flag.String("tags", "", "build tags for -all")
 	vtaF := flag.Bool("vta", true, "use the VTA-refined call graph (false: plain CHA)")
+	dump := flag.Bool("dump-pinned", false, "print the identifier inventory of the tree (regenerates core/pinned.json; run on the pinned tree only)")
 	flag.Parse()
 
 	abs, err := filepath.Abs(*repo)
@@ -45,6 +46,16 @@ func main() {
 	*repo = abs
 
 	switch {
+	case *dump:
+		c, err := core.Load(core.Config{Repo: *repo})
+		if err != nil {
+			fatal(err)
+		}
+		b, err := c.DumpPinned()
+		if err != nil {
+			fatal(err)
+		}
+		os.Stdout.Write(b)
 	case *list:
 		for _, r := range rules.All() {
 			fmt.Printf("%-28s props=%v min=%d\n    %s\n", r.Name, r.Props, r.Min, r.Doc)
